@@ -57,18 +57,22 @@ class ArrayModel:
 
 def lift(node, ax):
     """-> dict(kind=..., ...) with FP SMT strings for scalars; supports the two shapes of code
-    np.arange(start, stop, step)   and   start + np.arange(N) * step"""
-    P = {f"self.param['{ax}min']": 'pmin', f"self.param['d{ax}']": 'pd', f"self.param['N{ax}']": 'N'}
+    np.arange(start, stop, step)   and   start + np.arange(N) * step.
+    Every self.param[...] entry is its own variable, so using another axis' parameter is visible."""
+    import re as _re
+
+    def pname(s):
+        m = _re.fullmatch(r"self\.param\['(\w+)'\]", s)
+        return m.group(1) if m else None
 
     def scalar(n):
         s = ast.unparse(n)
-        if s in P:
-            return P[s]
+        k = pname(s)
+        if k is not None:
+            return 'Nf_' + k if k.startswith('N') else 'p_' + k
         if isinstance(n, ast.BinOp):
             a, b = scalar(n.left), scalar(n.right)
             op = {ast.Add: 'fp.add', ast.Sub: 'fp.sub', ast.Mult: 'fp.mul', ast.Div: 'fp.div'}[type(n.op)]
-            a = 'Nf' if a == 'N' else a
-            b = 'Nf' if b == 'N' else b
             return f"({op} RNE {a} {b})"
         raise ValueError(f"cannot lift {s}")
     if isinstance(node, ast.Call) and ast.unparse(node.func) == 'np.arange' and len(node.args) == 3:
@@ -78,8 +82,8 @@ def lift(node, ax):
             if isinstance(rest, ast.BinOp) and isinstance(rest.op, ast.Mult):
                 for ar, st in ((rest.left, rest.right), (rest.right, rest.left)):
                     if (isinstance(ar, ast.Call) and ast.unparse(ar.func) == 'np.arange' and len(ar.args) == 1
-                            and ast.unparse(ar.args[0]) in P and P[ast.unparse(ar.args[0])] == 'N'):
-                        return dict(kind='affine', start=scalar(base), step=scalar(st))
+                            and pname(ast.unparse(ar.args[0])) is not None):
+                        return dict(kind='affine', start=scalar(base), step=scalar(st), count=pname(ast.unparse(ar.args[0])))
     raise ValueError(f"unrecognised coordinate expression: {ast.unparse(node)}")
 
 
@@ -124,10 +128,16 @@ def fp_queries(report, tier):
             continue
         for N in Ns:
             name = f"{ax}array N={N}: exactly N points at fl(min + fl(i*d))"
-            head = (f"(set-logic QF_FP)\n(declare-const pmin {F64})\n(declare-const pd {F64})\n"
-                    f"(define-fun Nf () {F64} {fpconst(float(N))})\n"
-                    f"(assert (fp.leq {fpconst(-1e4)} pmin))\n(assert (fp.leq pmin {fpconst(1e4)}))\n"
-                    f"(assert (fp.leq {fpconst(1e-6)} pd))\n(assert (fp.leq pd {fpconst(1e3)}))\n")
+            decl = ''.join(f"(declare-const p_{a}{k} {F64})\n" for a in 'xyz' for k in ('min',)) + \
+                ''.join(f"(declare-const p_d{a} {F64})\n" for a in 'xyz')
+            rng_ = ''.join(f"(assert (fp.leq {fpconst(-1e4)} p_{a}min))\n(assert (fp.leq p_{a}min {fpconst(1e4)}))\n"
+                           f"(assert (fp.leq {fpconst(1e-6)} p_d{a}))\n(assert (fp.leq p_d{a} {fpconst(1e3)}))\n" for a in 'xyz')
+            head = (f"(set-logic QF_FP)\n" + decl + ''.join(f"(define-fun Nf_N{a} () {F64} {fpconst(float(N))})\n" for a in 'xyz') + rng_)
+            if m['kind'] == 'affine' and m.get('count') != 'N' + ax:
+                report.record(name, 'sat', group=f"coordinate arrays ({m['kind']} form)", kind='structure')
+                report.violation(f"{ax}array point count", f"{ax}array has np.arange({m.get('count')}) entries instead of N{ax}",
+                                 report.write_replay(f"{ax}array_count", dict(count=m.get('count'))))
+                continue
             if m['kind'] == 'affine':
                 # length is N by construction of np.arange(N); positions are the lifted expression itself:
                 # the remaining claim is that the expression IS min + i*d in Float64 arithmetic
@@ -137,13 +147,13 @@ def fp_queries(report, tier):
                 for i in sorted({0, 1, N // 2, N - 1}):
                     iv = fpconst(i)
                     e = f"(fp.add RNE {m['start']} (fp.mul RNE {iv} {m['step']}))"
-                    w = f"(fp.add RNE pmin (fp.mul RNE {iv} pd))"
+                    w = f"(fp.add RNE p_{ax}min (fp.mul RNE {iv} p_d{ax}))"
                     diffs.append(f"(not (fp.eq {e} {w}))")
-                q = head + f"(assert (or {' '.join(diffs)}))\n(check-sat)\n(get-value (pmin pd))\n"
+                q = head + f"(assert (or {' '.join(diffs)}))\n(check-sat)\n"
             else:
                 # np.arange(start, stop, step): length = ceil((stop - start)/step) in Float64
                 ln = f"(fp.roundToIntegral RTP (fp.div RNE (fp.sub RNE {m['stop']} {m['start']}) {m['step']}))"
-                q = head + f"(assert (not (fp.eq {ln} Nf)))\n(check-sat)\n(get-value (pmin pd))\n"
+                q = head + f"(assert (not (fp.eq {ln} Nf_N{ax})))\n(check-sat)\n"
             v, vals, dt = solver.run_script(q, timeout_s=60 if tier == 'quick' else 400, backend='z3new', tag='fp16')
             report.record(name, v, round(dt, 2), 'z3new', sha=str(abs(hash(q)) % 10 ** 10), group=f"coordinate arrays ({m['kind']} form)", kind='fp')
             if v == 'sat':
@@ -151,7 +161,7 @@ def fp_queries(report, tier):
                 # use the well-known witness family instead and confirm with numpy
                 rp = replay_grid(N)
                 if rp['reproduces']:
-                    report.violation(f"{ax}array point count", f"{name}: solver found (min, d) with a different length; "
+                    report.violation(f"{ax}array point count", f"{name}: solver found parameters for which the point count or a position differs from min + i*d; "
                                      f"numpy confirms e.g. {rp['witness']}", report.write_replay(f"{ax}array_N{N}", rp))
                 else:
                     report.inconc(name, 'FP counterexample not reproduced with the witness family')
@@ -164,10 +174,12 @@ def replay_grid(N):
     for mn in (0.0, 0.1, -1.0, 1.0, 0.3):
         for d in (0.1, 0.3, 1 / 3, 0.7, 0.05, 1.1):
             for n in {N, 3, 10}:
-                p = {'xmin': mn, 'ymin': mn, 'zmin': mn, 'dx': d, 'dy': d, 'dz': d, 'Nx': n, 'Ny': n, 'Nz': n}
+                p = {'xmin': mn, 'ymin': mn + 1, 'zmin': mn - 1, 'dx': d, 'dy': 2 * d, 'dz': d / 3, 'Nx': n, 'Ny': n, 'Nz': n}
                 fd = FiniteDifference(p, verbose=False)
-                if fd.Nx != n or len(fd.xarray) != n or fd.x.shape != (n, n, n):
-                    return dict(reproduces=True, witness=dict(min=mn, d=d, N=n, got=len(fd.xarray)))
+                ok = (fd.Nx == n and len(fd.xarray) == n and fd.x.shape == (n, n, n)
+                      and all(np.array_equal(getattr(fd, a + 'array'), p[a + 'min'] + np.arange(n) * p['d' + a]) for a in 'xyz'))
+                if not ok:
+                    return dict(reproduces=True, witness=dict(min=mn, d=d, N=n, got=[len(fd.xarray), len(fd.yarray), len(fd.zarray)]))
     return dict(reproduces=False)
 
 
